@@ -218,7 +218,10 @@ def mutate(V, recv, name, args, kwargs, st, node):
         z = recv.z
         et = recv.t.elem
         if name == 'append':
-            return SV(recv.t, z3.Concat(z, z3.Unit(pack(args[0], et)))), MNONE
+            a0 = args[0]
+            if isinstance(a0, SV) and isinstance(a0.t, OptT) and not isinstance(et, OptT):
+                a0 = V.nn(st, a0, node, 'appended value (list of non-optional values per contract)')
+            return SV(recv.t, z3.Concat(z, z3.Unit(pack(a0, et)))), MNONE
         if name == 'extend':
             return SV(recv.t, z3.Concat(z, pack(args[0], recv.t))), MNONE
         if name == 'insert':
